@@ -207,6 +207,25 @@ func Apply(doc bson.D, update bson.D, upsert bool, arrayFilters []bson.D) (*Upda
 			}
 		}
 	}
+	// conflicts: equal paths or prefix pairs after the positional operators have been expanded against the document
+	// (the $rename target counts as a path). A concrete overlap is a conflict under MongoDB's static rule as well as
+	// under a run-time rule, so it is decided before the "not modelled" gate below.
+	var all []string
+	for _, in := range invs {
+		all = append(all, in.path)
+		if in.op == "$rename" {
+			if t, ok := in.arg.(string); ok {
+				all = append(all, t)
+			}
+		}
+	}
+	for i := range all {
+		for j := range all {
+			if i < j && (all[i] == all[j] || strings.HasPrefix(all[i], all[j]+".") || strings.HasPrefix(all[j], all[i]+".")) {
+				return nil, reject("conflicting paths %q and %q", all[i], all[j])
+			}
+		}
+	}
 	// several invocations where one is positional and shares its array with another path:
 	// MongoDB's static conflict rules for such trees are not modelled
 	nraw := 0
@@ -234,23 +253,6 @@ func Apply(doc bson.D, update bson.D, upsert bool, arrayFilters []bson.D) (*Upda
 		for j, q := range raws {
 			if i != j && (q == head || strings.HasPrefix(q, head+".") || strings.HasPrefix(head, q+".")) {
 				return nil, outside("positional path next to another path on the same array")
-			}
-		}
-	}
-	// conflicts: equal paths or prefix pairs (the $rename target counts as a path)
-	var all []string
-	for _, in := range invs {
-		all = append(all, in.path)
-		if in.op == "$rename" {
-			if t, ok := in.arg.(string); ok {
-				all = append(all, t)
-			}
-		}
-	}
-	for i := range all {
-		for j := range all {
-			if i < j && (all[i] == all[j] || strings.HasPrefix(all[i], all[j]+".") || strings.HasPrefix(all[j], all[i]+".")) {
-				return nil, reject("conflicting paths %q and %q", all[i], all[j])
 			}
 		}
 	}
